@@ -96,6 +96,10 @@ def dictionaries(model, rr):
   acts = [n for n, c in names.items() if c == "Activation"]
   if acts:
     ds.append(("activation_by_name", {acts[0]: a(), "QDense": {"kernel_quantizer": k()}}))
+    # no QActivation entry: Activation layers fall back to QAdaptiveActivation (activation map / plain string / by name over it)
+    ds.append(("adaptive_map", {"QAdaptiveActivation": {"relu": "quantized_relu(%d)" % rr.choice([4, 6, 8])}, "QDense": {"kernel_quantizer": k()}}))
+    ds.append(("adaptive_string", {"QAdaptiveActivation": "quantized_bits(%d)" % rr.choice([4, 8])}))
+    ds.append(("qactivation_over_adaptive", {"QActivation": {"relu": a()}, "QAdaptiveActivation": {"relu": "quantized_relu(6)"}}))
   return ds
 
 
@@ -144,6 +148,21 @@ def expected(layer, qcfg, activation_bits):
   if cls == "Activation":
     if entry is None:
       entry = qcfg.get("QActivation")
+    if entry is None and qcfg.get("QAdaptiveActivation") is not None:
+      # the adaptive layer is the backup choice: type name without parameters + total bits
+      entry = qcfg["QAdaptiveActivation"]
+      an = activation_name(cfg)
+      if isinstance(entry, dict):
+        if not entry.get(an):
+          return None
+        q = entry[an]
+      else:
+        q = entry
+      import re
+      kw = dict(cfg)
+      kw["activation"] = q.split("(")[0]
+      kw["total_bits"] = int(re.sub(r"[^0-9]", "", q))
+      return "QAdaptiveActivation", kw
     if entry is None:
       return None
     an = activation_name(cfg)
@@ -176,7 +195,10 @@ def expected(layer, qcfg, activation_bits):
 
 QUANT_KEYS = ("kernel_quantizer", "bias_quantizer", "depthwise_quantizer", "pointwise_quantizer", "average_quantizer", "activation", "kernel_range", "bias_range",
               "depthwise_range", "kernel_constraint", "bias_constraint", "depthwise_constraint", "kernel_initializer", "bias_initializer", "depthwise_initializer",
-              "max_value", "negative_slope", "threshold", "mask")
+              "max_value", "negative_slope", "threshold", "mask",
+              # quantization parameters of QAdaptiveActivation (absent from the source Activation layer)
+              "total_bits", "current_step", "symmetric", "quantization_delay", "ema_freeze_delay", "ema_decay", "per_channel", "po2_rounding",
+              "relu_neg_slope", "relu_upper_bound")
 
 
 def nonquant_config(layer):
@@ -357,10 +379,10 @@ def run(tier, seed):
                  "call() of every converted layer and of the directly constructed expected layer"]
   r.bounds = ["%d (model, dictionary, activation_bits, transfer_weights) instances from 5 templates (dense stack, conv/pool, depthwise, two-branch "
               "with Add/Concatenate/BatchNormalization, causal Conv1D) and a generated dictionary family (empty, class entries, name entries, name "
-              "over class, partial, activation_quantizer, QActivation as string / map / by name)" % len(r.configs),
+              "over class, partial, activation_quantizer, QActivation as string / map / by name, QAdaptiveActivation as map / string / behind QActivation)" % len(r.configs),
               "per converted layer: functional equality with the directly constructed Q layer for all inputs and weight values",
-              "SeparableConv, recurrent, transpose, batch-norm and folded conversions, QAdaptiveActivation and tanh/sigmoid activation conversion "
-              "cannot be constructed under the pinned Keras 3 and are outside the claim (SeparableConv conversion raises: recorded finding)"]
+              "SeparableConv, recurrent, transpose, batch-norm and folded conversions cannot be constructed under the pinned Keras 3 and are outside "
+              "the claim (SeparableConv conversion raises: recorded finding); prefer_qadaptiveactivation=True and enable_bn_folding are not exercised"]
   r.assumptions = ["the expected layer is built by the harness from the property's text (name entry first, else class entry; no bias quantizer on "
                    "biasless layers; quantized_relu(bits) for plain relu)", "Keras model (de)serialisation runs concretely"]
   # model_quantize on a model with SeparableConv layers (recorded finding if it still raises)
